@@ -53,6 +53,10 @@ func runOne(rec *sim.Recorder, r Run, bubble bool) {
 	if r.Cfg.Poll == 0 {
 		r.Cfg.Poll = 1000
 	}
+	if !bubble {
+		stop := Watchdog(rec, r.Cfg.Slack)
+		defer stop()
+	}
 	w := NewWorld(rec, r.Cfg, quiesce)
 	w.Bubble = bubble
 	for _, st := range r.Steps {
